@@ -27,6 +27,7 @@ def tasks(tier):
           Task('props.wire:run', name='C03/wire.compute_dt', fname='c03_compute_dt', timeout=300)]
     for K in (1, 2, 3, 4, 5):
         ts.append(Task('props.C03:t_step', name='C03/wire.driver-step.%d' % K, K=K, timeout=600))
+        ts.append(Task('props.C03:t_inject', name='C03/wire.inject.%d' % K, K=K, timeout=600))
     return ts + bounded_tasks('C03', tier)
 
 
@@ -38,6 +39,19 @@ def t_step(K):
     for r in rs:
         if 'compute_dt' in r['id'] or r['verdict'] != 'proved':
             r['id'] = r['id'].replace('C02/', 'C03/', 1)
+            out.append(r)
+    return out
+
+
+def t_inject(K):
+    """the influx is linear in theta0 and dt and normalised by the trapezoid weights: amount clauses of the influx contract (same contract as C04)"""
+    from contracts import py_wiring as W
+    out = []
+    for r in W.c04_inject(K):
+        if '.increment' in r['id'] or r['verdict'] != 'proved':
+            r['id'] = r['id'].replace('C04/', 'C03/', 1)
+            if r.get('finding_key'):
+                r['finding_key'] = r['finding_key'].replace('C04/', 'C03/', 1)
             out.append(r)
     return out
 
